@@ -11,6 +11,9 @@ CLAIMED = {
  "C13": dict(
    text="every row of the tool's real command table x arities 1..5 (thorough 1..8) x black/white lists: each argument and prefix is a symbolic byte, so every combination of passing/non-passing keys is a solver-decided path; the rewritten argv is compared with the Redis key-position specification",
    note=NOTE_COMMON + "one-byte arguments and prefixes; Redis' (first,last,step) table is hard-coded on the specification side"),
+ "C01": dict(
+   text="a reference RDB writer in the harness emits, per skeleton (28 value shapes x 4-6 attribute variants, metadata/multi-key/multi-db/encoded-key skeletons), a byte stream with symbolic field values, contents and length forms together with the expected records; the real loader (Header/NextBinEntry/Footer, readObjectValue, ReadString incl. int and LZF forms, module-aux skipping, createValueDump) runs on it from its SSA and every record field and the payload bytes (type || exact serialized bytes || version || CRC) are asserted for all symbolic values",
+   note=NOTE_COMMON + "skeletons are enumerated concretely (strings <= 3 bytes, <= 3 elements, <= 3 keys); DUMP and file CRCs are computed on the oracle side by the tool's own digest over the same byte terms (C11 shows that digest is CRC-64/Jones); the 16 MiB chunked hash is not encoded"),
  "C10": dict(
    text="18 value-tree skeletons (depth <= 3, payloads <= 3 symbolic bytes, small symbolic integers, nil vs empty) encoded with the real encoder, embedded in a stream with keep-alive newlines and a following value, decoded with the real decoder over real bufio: equality, exact byte position and intact remainder asserted for all payload values; integers across the imap boundaries; inline commands; corruption families (CR, LF, non-numeric and negative lengths, unknown type in array, every truncation point) must yield an error; ParseArgs/ChangeArgsToResp round trip",
    note=NOTE_COMMON + "shapes are enumerated concretely, contents are symbolic; text lines exclude LF; integers restricted to the listed ranges and edge values"),
